@@ -36,6 +36,8 @@ class _TimeMod:
         w.time_calls += 1
         if w.time_calls > w.spin_limit:
             raise BusySpin()
+        if w.busy_node is not None:
+            return w.now + w.busy_node.busy       # tx_time model: the running job pass has spent `busy` in send calls
         return w.now
 
     @staticmethod
@@ -285,6 +287,8 @@ class Node:
         self.silent_from = None    # frames sent with per-node index >= this are lost
         self.sent = 0
         self.held = False          # C08: job pass suspended by the line hook
+        self.busy = Fraction(0)    # tx_time model: time the running job pass has spent in send calls
+        self.busy_until = None     # tx_time model: instant at which the last job pass returned to its wait
         self.cas = []
         world.nodes.append(self)
         world._ctor_node = self
@@ -305,7 +309,11 @@ class Node:
 
     # ---- send hook
     def _send(self, can_id, extended_id, data, fd_format=False):
-        self.world.bus_send(self, can_id, extended_id, data, fd_format)
+        w = self.world
+        w.bus_send(self, can_id, extended_id, data, fd_format)
+        if w.tx_time is not None and w.busy_node is self:
+            # the send call of the job thread returns when the frame is on the bus: the pass takes time
+            self.busy = self.busy + w.tx_time
 
     # ---- job thread model
     def attach_thread(self, th):
@@ -329,6 +337,8 @@ class Node:
         self.wake_pending = True
         if w.mode == 'timed':
             cand = w.now + w.draw_eps(self)
+            if self.busy_until is not None and bool(cand < self.busy_until):
+                cand = self.busy_until + w.draw_eps(self)      # tx_time model: the previous pass is still running
             if self.job_due is None or cand < self.job_due:
                 self.job_due = cand
 
@@ -348,12 +358,18 @@ class Node:
         self.job_due = None
         w.time_calls = 0
         self.passes += 1
+        self.busy = Fraction(0)
+        prev_busy_node = w.busy_node
+        if w.tx_time is not None and w.mode == 'timed':
+            w.busy_node = self
         try:
             self.thread.target()
             self.ended = True
         except _Park as p:
             self.last_park_timeout = p.timeout
-            self.parked_until = w.now + p.timeout
+            self.parked_until = w.now + self.busy + p.timeout
+            if w.busy_node is self:
+                self.busy_until = w.now + self.busy
             if w.mode == 'timed':
                 self.job_due = self.parked_until + w.draw_eps(self)
         except BusySpin:
@@ -365,6 +381,7 @@ class Node:
         finally:
             self.running = False
             w.time_calls = 0
+            w.busy_node = prev_busy_node
         # wake-ups put while the pass was running were consumed by get() inside the loop
 
     def deliver(self, frame):
@@ -415,6 +432,8 @@ class World:
         self.ex = ex
         self.mode = mode
         self.now = T(start)
+        self.tx_time = None        # timed mode, optional: every send call of a job pass takes this long (see DESIGN 10.2)
+        self.busy_node = None
         self.eps = T('1/10000') if eps is None else STime.of(eps)
         self.eps_range = eps_range
         self.latency = latency
@@ -466,7 +485,8 @@ class World:
     # ---- bus
     def bus_send(self, sender, can_id, extended_id, data, fd_format):
         idx = len(self.log)
-        frame = {'i': idx, 't': self.now, 'src': sender.name, 'id': can_id, 'ext': extended_id,
+        t_send = self.now + sender.busy if self.busy_node is sender else self.now
+        frame = {'i': idx, 't': t_send, 'src': sender.name, 'id': can_id, 'ext': extended_id,
                  'data': list(data), 'fd': bool(fd_format), 'lost': False, 'nidx': sender.sent}
         sender.sent += 1
         self.log.append(frame)
@@ -492,7 +512,7 @@ class World:
                     n.inbox.append(frame)
                 else:
                     lat = self.latency(self, sender, n, idx) if self.latency is not None else T('1/1000')
-                    t = self.now + lat
+                    t = t_send + lat
                     last = self.last_rx.get(n.name)
                     if last is not None and t < last:
                         t = last
